@@ -592,3 +592,142 @@ Proof.
     - unfold cm_of; simpl. reflexivity. }
   rewrite F. simpl. reflexivity.
 Qed.
+
+(** ---- acceptance for any selection list [es] of (fragment, real?) whose dictionary is laid out per entry ---- *)
+Lemma zsum_cons x l : ChgMult.zsum (x :: l) = x + ChgMult.zsum l.
+Proof. reflexivity. Qed.
+
+Lemma sums_es p es :
+  (forall e, In e es -> snd e = true -> valid_frag p (fst e) /\ all_real p (fst e)) ->
+  zsum (map (fun e => Mf p e - 1) es) <= zsum (map (Zf p) es) - zsum (map (Cf p) es)
+  /\ (zsum (map (fun e => Mf p e - 1) es) - (zsum (map (Zf p) es) - zsum (map (Cf p) es))) mod 2 = 0
+  /\ 0 <= zsum (map (fun e => Mf p e - 1) es).
+Proof.
+  induction es as [|[f b] es IH]; intros H; [simpl; repeat split; reflexivity|].
+  rewrite !map_cons, !zsum_cons.
+  destruct IH as (I1 & I2 & I3); [intros e He; apply H; right; exact He|].
+  destruct b.
+  - destruct (H (f, true) (or_introl eq_refl) eq_refl) as ((V1 & V2 & V3 & _) & Ar). cbn [fst] in *.
+    change (Mf p (f, true)) with (fm_at p f). change (Cf p (f, true)) with (fc_at p f). rewrite Zf_real by exact Ar. repeat split; lia.
+  - change (Mf p (f, false)) with 1. change (Cf p (f, false)) with 0. rewrite (proj1 (Zf_ghost p f)). repeat split; lia.
+Qed.
+
+Lemma rules_full_of_es p es d :
+  felez (cm_of d) = map (fun e => map zeff (frag_atoms p (snd e) (fst e))) es ->
+  d_fc d = map (Cf p) es -> d_fm d = map (Mf p) es ->
+  (forall e, In e es -> snd e = true -> valid_frag p (fst e) /\ all_real p (fst e)) ->
+  rules_full (cm_of d) {| oc := zsum (d_fc d); ofc := d_fc d; om := hss (d_fm d); ofm := d_fm d |} = true.
+Proof.
+  intros Ffe Ffc Ffm V.
+  set (r := {| oc := zsum (d_fc d); ofc := d_fc d; om := hss (d_fm d); ofm := d_fm d |}).
+  assert (Ffz : fzel (cm_of d) = map (Zf p) es) by (unfold fzel; rewrite Ffe, map_map; reflexivity).
+  destruct (sums_es p es V) as (S1 & S2 & S3).
+  assert (Hm : hss (d_fm d) = 1 + zsum (map (fun e => Mf p e - 1) es)) by (rewrite hss_spec, Ffm, map_map; reflexivity).
+  assert (Zel : zel (cm_of d) = zsum (map (Zf p) es)) by (unfold zel; rewrite Ffz; reflexivity).
+  unfold rules_full.
+  assert (L1 : List.length (ofc r) = List.length (felez (cm_of d))) by (unfold r; cbn [oc ofc om ofm]; rewrite Ffc, Ffe, !map_length; reflexivity).
+  assert (L2 : List.length (ofm r) = List.length (felez (cm_of d))) by (unfold r; cbn [oc ofc om ofm]; rewrite Ffm, Ffe, !map_length; reflexivity).
+  assert (L3 : List.length (fzel (cm_of d)) = List.length (felez (cm_of d))) by (unfold fzel; rewrite map_length; reflexivity).
+  repeat (apply andb_true_iff; split).
+  - apply Nat.eqb_eq. exact L1.
+  - apply Nat.eqb_eq. exact L2.
+  - apply Z.eqb_eq. reflexivity.
+  - apply Z.leb_le. unfold r; cbn [oc ofc om ofm]. rewrite Hm. unfold ChgMult.zsum in *. lia.
+  - unfold r; cbn [oc ofc om ofm]. rewrite Ffm. rewrite forallb_forall. intros m Hmm. apply in_map_iff in Hmm. destruct Hmm as ([f b] & <- & He).
+    apply Z.leb_le. unfold Mf; cbn [fst snd]. destruct b; [|lia]. destruct (V _ He eq_refl) as ((V1 & _) & _). exact V1.
+  - unfold sufficient. apply Z.leb_le. rewrite Zel. unfold r; cbn [oc ofc om ofm]. rewrite Hm, Ffc. unfold ChgMult.zsum in *. lia.
+  - apply all3_spec; [lia|lia|]. intros k x y z Hx Hy Hz. unfold r in Hy, Hz; cbn [oc ofc om ofm] in Hy, Hz. rewrite Ffz in Hx. rewrite Ffc in Hy. rewrite Ffm in Hz.
+    destruct (nth_error_map3 _ _ _ _ _ _ _ _ Hx Hy Hz) as ([f b] & He & -> & -> & ->).
+    unfold sufficient. apply Z.leb_le. unfold Cf, Mf; cbn [fst snd]. destruct b.
+    + destruct (V _ He eq_refl) as ((V1 & V2 & _) & Ar). cbn [fst] in *. rewrite Zf_real by exact Ar. lia.
+    + rewrite (proj1 (Zf_ghost p f)). lia.
+  - unfold parity_ok. apply negb_true_iff, Z.eqb_neq. rewrite Zel. unfold r; cbn [oc ofc om ofm]. rewrite Hm, Ffc. unfold ChgMult.zsum in *. lia.
+  - apply all3_spec; [lia|lia|]. intros k x y z Hx Hy Hz. unfold r in Hy, Hz; cbn [oc ofc om ofm] in Hy, Hz. rewrite Ffz in Hx. rewrite Ffc in Hy. rewrite Ffm in Hz.
+    destruct (nth_error_map3 _ _ _ _ _ _ _ _ Hx Hy Hz) as ([f b] & He & -> & -> & ->).
+    unfold parity_ok. apply negb_true_iff, Z.eqb_neq. unfold Cf, Mf; cbn [fst snd]. destruct b.
+    + destruct (V _ He eq_refl) as ((V1 & V2 & V3 & _) & Ar). cbn [fst] in *. rewrite Zf_real by exact Ar. exact V3.
+    + rewrite (proj1 (Zf_ghost p f)). lia.
+  - apply ghost_rule_spec; [unfold ghosts; rewrite map_length; lia|unfold ghosts; rewrite map_length; lia|].
+    intros k c m Hg Hc Hmm. unfold r in Hc, Hmm; cbn [oc ofc om ofm] in Hc, Hmm. unfold ghosts in Hg. rewrite Ffe, map_map in Hg. rewrite Ffc in Hc. rewrite Ffm in Hmm.
+    rewrite nth_error_map in Hg, Hc, Hmm. destruct (nth_error es k) as [[f b]|] eqn:E; simpl in *; try discriminate.
+    injection Hc as <-. injection Hmm as <-. injection Hg as Hg.
+    assert (He : In (f, b) es) by (eapply nth_error_In; exact E).
+    destruct b; [|split; reflexivity].
+    exfalso. destruct (V _ He eq_refl) as ((_ & _ & _ & V4 & V5) & Ar). cbn [fst] in *.
+    assert (Zz : Zf p (f, true) = 0).
+    { unfold Zf; cbn [fst snd]. unfold is_ghost in Hg. rewrite forallb_forall in Hg.
+      clear -Hg. induction (map zeff (frag_atoms p true f)) as [|z l IH]; simpl; [reflexivity|].
+      rewrite (proj1 (Z.eqb_eq z 0) (Hg z (or_introl eq_refl))). rewrite IH; [reflexivity|]. intros w Hw. apply Hg. right; exact Hw. }
+    rewrite Zf_real in Zz by exact Ar. lia.
+  - unfold cm_of; simpl. reflexivity.
+Qed.
+
+(** order-preserving path: no totals are handed over; the constructor's search finds exactly the sum of the
+    fragment charges and the high-spin multiplicity *)
+Theorem subsystem_validates_ungrouped p real ghost d :
+  disjoint_frags p -> (forall i, In i (List.concat (p_frags p)) -> (i < List.length (p_atoms p))%nat) ->
+  get_fragment p real ghost false = Ok d -> contiguous d = true ->
+  (forall f, In f (chosen_list p real ghost) -> memb f real = true -> valid_frag p f /\ all_real p f) ->
+  sub_molecule p real ghost false
+  = Ok {| p_atoms := d_atoms d; p_frags := d_frags d; p_fc := d_fc d; p_fm := d_fm d;
+          p_c := zsum (d_fc d); p_m := hss (d_fm d) |}.
+Proof.
+  intros D R G Cg V. pose proof (ungrouped_conserves p real ghost d D R G) as (A1 & A2 & A3 & A4 & A5).
+  unfold sub_molecule. rewrite G. simpl. rewrite Cg. simpl.
+  set (es := map (fun k => (k, memb k real)) (chosen_list p real ghost)).
+  set (r := {| oc := zsum (d_fc d); ofc := d_fc d; om := hss (d_fm d); ofm := d_fm d |}).
+  assert (Ffc : d_fc d = map (Cf p) es) by (rewrite A3; unfold es; rewrite map_map; reflexivity).
+  assert (Ffm : d_fm d = map (Mf p) es) by (rewrite A4; unfold es; rewrite map_map; reflexivity).
+  assert (Ffe : felez (cm_of d) = map (fun e => map zeff (frag_atoms p (snd e) (fst e))) es).
+  { unfold cm_of; simpl. apply (felez_of_blocks (d_atoms d) (fun e => frag_atoms p (snd e) (fst e))).
+    unfold es. clear -A2. induction A2; simpl; constructor; auto. }
+  assert (Ves : forall e, In e es -> snd e = true -> valid_frag p (fst e) /\ all_real p (fst e)).
+  { intros e He Hs. unfold es in He. apply in_map_iff in He. destruct He as (k & <- & Hk). cbn [fst snd] in *. apply V; assumption. }
+  pose proof (rules_full_of_es p es d Ffe Ffc Ffm Ves) as RF. fold r in RF.
+  assert (F : fill (cm_of d) = Ok r).
+  { pose proof RF as RF0. unfold rules_full in RF0.
+    repeat (apply andb_true_iff in RF0; destruct RF0 as [RF0 ?]).
+    match goal with [ Hx : forallb (fun m => 1 <=? m) (ofm r) = true |- _ ] => rename Hx into Hpos end.
+    unfold fill. assert (Eim : im (cm_of d) = None) by (unfold cm_of; simpl; rewrite A5; reflexivity).
+    assert (Eic : ic (cm_of d) = None) by (unfold cm_of; simpl; rewrite A5; reflexivity).
+    assert (Eifm : ifm (cm_of d) = map Some (ofm r)) by reflexivity.
+    assert (Eifc : ifc (cm_of d) = map Some (ofc r)) by reflexivity.
+    rewrite Eim, Eifm. cbn [bad_mult]. rewrite existsb_bad_mult_pos by exact Hpos. cbn [orb].
+    assert (Ad : adjust (cm_of d) = cm_of d) by reflexivity. rewrite Ad.
+    rewrite (candidates_full (cm_of d) r); [| right; split; [exact Eic|reflexivity] | reflexivity | exact Eifc | right; split; [exact Eim|reflexivity] | exact Eifm].
+    cbn [find]. rewrite (rules_ok_of_full (cm_of d) r RF (cm_of d) eq_refl Eifc Eifm (or_intror Eic) (or_intror (conj Eim eq_refl))). reflexivity. }
+  rewrite F. simpl. reflexivity.
+Qed.
+
+Lemma sqrt_enclosure_Z a b T : 0 < a -> 0 < b -> 0 < T -> 1 <= a * (T * T) / b ->
+  let s := Z.sqrt (a * (T * T) / b) in
+  1 <= s /\ T * T * a <= (s + 1) * (s + 1) * b /\ s * s * b <= T * T * a.
+Proof.
+  intros Ha Hb HT H1. set (N := a * (T * T) / b) in *. intros s.
+  assert (N0 : 0 <= N) by lia.
+  pose proof (Z.sqrt_spec N N0) as [S1 S2]. fold s in S1, S2. unfold Z.succ in S2.
+  assert (s1 : 1 <= s). { unfold s. change 1 with (Z.sqrt 1). apply Z.sqrt_le_mono. exact H1. }
+  pose proof (Z.div_mod (a * (T * T)) b ltac:(lia)) as DM. pose proof (Z.mod_pos_bound (a * (T * T)) b Hb) as MB.
+  fold N in DM. set (r := (a * (T * T)) mod b) in *. set (M := a * (T * T)) in *.
+  assert (E : T * T * a = M) by (unfold M; ring). rewrite E.
+  split; [exact s1|]. split.
+  - assert (N + 1 <= (s + 1) * (s + 1)) by lia. assert (M < (N + 1) * b) by nia. nia.
+  - assert (s * s <= N) by lia. assert (N * b <= M) by nia. nia.
+Qed.
+
+(** ---- the rational enclosure of 1/sqrt(d2) used to compare the implementation's float with the exact terms:
+    lo <= 1/sqrt(d2) <= hi, stated without the square root ---- *)
+Theorem inv_sqrt_enclosure (d2 : Q) : 0 < Qnum d2 -> 1 <= Qnum d2 * 10 ^ 60 / Zpos (Qden d2) ->
+  (0 < fst (inv_sqrt_lo_hi d2))%Q /\ (fst (inv_sqrt_lo_hi d2) <= snd (inv_sqrt_lo_hi d2))%Q
+  /\ (fst (inv_sqrt_lo_hi d2) * fst (inv_sqrt_lo_hi d2) * d2 <= 1)%Q
+  /\ (1 <= snd (inv_sqrt_lo_hi d2) * snd (inv_sqrt_lo_hi d2) * d2)%Q.
+Proof.
+  intros Hn H1. unfold inv_sqrt_lo_hi. destruct d2 as [a b]. cbn [Qnum Qden fst snd] in *.
+  change (10 ^ 60) with (10 ^ 30 * (10 ^ 30)) in *. set (T := 10 ^ 30) in *.
+  assert (T0 : 0 < T) by (unfold T; apply Z.pow_pos_nonneg; lia).
+  pose proof (sqrt_enclosure_Z a (Z.pos b) T Hn ltac:(lia) T0 H1) as (s1 & X1 & X2).
+  set (s := Z.sqrt (a * (T * T) / Z.pos b)) in *.
+  rewrite Z.max_l by lia.
+  unfold Qlt, Qle, Qmult. cbn [Qnum Qden]. rewrite !Pos2Z.inj_mul, !Z2Pos.id by lia.
+  repeat split; nia.
+Qed.
